@@ -442,7 +442,15 @@ def _construct_dsdl_definitions_from_namespaces(
             roots=[str(r) for r in root_namespace_paths],
             order=[str(p[0]) for p in source_file_paths],
         )
-    return dsdl_file_sort([_dsdl_definition.DSDLDefinition(*p) for p in source_file_paths])
+    definitions = []
+    for file_path, root_path in source_file_paths:
+        try:
+            definitions.append(_dsdl_definition.DSDLDefinition(file_path, root_path))
+        except (ValueError, RuntimeError, OSError) as ex:  # E.g., a link that leads out of the root or loops.
+            raise _dsdl_definition.FileNameFormatError(
+                "Cannot locate the definition under its root namespace directory: %s" % ex, path=file_path
+            ) from ex
+    return dsdl_file_sort(definitions)
 
 
 def _ensure_no_fixed_port_id_collisions(types: list[_serializable.CompositeType]) -> None:
